@@ -36,7 +36,7 @@ def check_phase(N, ext, kinds, rises, decays):
     except Exception as e:      # noqa
         return 'RAISE:' + type(e).__name__, None
     pha = np.asarray(pha, dtype=float)
-    anchors = list(ext) + (list(rises) if rises is not None else []) + (list(decays) if decays is not None else [])
+    anchors = list(ext) + list(rises or []) + list(decays or [])
     first, last = min(anchors), max(anchors)
     if len(pha) != N:
         return 'LENGTH', pha
@@ -103,16 +103,33 @@ class Placements(Space):
                 rises = [m for m, (a, b, ka) in zip(mids, flanks) if ka == 'T']
                 decays = [m for m, (a, b, ka) in zip(mids, flanks) if ka == 'P']
                 todo.append((rises, decays))
+            # only one of the two optional midpoint arrays supplied
+            if len(todo) > 1:
+                r1, d1 = todo[1]
+                todo += [(r1, None), (None, d1)]
+            # a cyclepoint set may start / end with a flank midpoint (before the first / after the last extremum)
+            r1, d1 = todo[1] if len(todo) > 1 else ([], [])
+            for lead in ([None] + list(range(0, ext[0]))[-2:]):
+                for trail in ([None] + list(range(ext[-1] + 1, N))[:2]):
+                    if lead is None and trail is None:
+                        continue
+                    rr, dd = list(r1 or []), list(d1 or [])
+                    if lead is not None:
+                        (rr if kinds[0] == 'P' else dd).insert(0, lead)
+                    if trail is not None:
+                        (dd if kinds[-1] == 'P' else rr).append(trail)
+                    todo.append((rr, dd))
             for rises, decays in todo:
                 nev += 1
                 prob, pha = check_phase(N, ext, kinds, rises, decays)
                 if prob:
-                    return VIOL({'kind': 'phase', 'problem': prob.split(':')[0], 'midpoints': rises is not None},
+                    return VIOL({'kind': 'phase', 'problem': prob.split(':')[0], 'midpoints': rises is not None or decays is not None,
+                         'one_sided': (rises is None) != (decays is None)},
                                 'phase violates %s' % prob,
                                 observed={'N': N, 'extrema': ext, 'kinds': kinds, 'rises': rises, 'decays': decays,
                                           'phase': None if pha is None else pha.tolist()}, evals=nev)
                 outs.append(hash(pha.tobytes()))
-                if rises is not None and (set(rises) | set(decays)) & set(ext):
+                if (set(rises or []) | set(decays or [])) & set(ext):
                     nt = True
         return OK(outcome=(tuple(ext), hash(tuple(outs))), nontrivial=nt, evals=nev)
 
